@@ -46,8 +46,14 @@ class AbstractConstraint(object):
         representation = '%s object' % (self.__class__.__name__)
 
         if self._values:
-            representation += ', consts %s' % ', '.join(
-                [repr(x) for x in self._values])
+            try:
+                representation += ', consts %s' % ', '.join(
+                    [repr(x) for x in self._values])
+
+            except ValueError:
+                # an integer operand too long to be shown in decimal
+                # digits (sys.set_int_max_str_digits)
+                representation += ', consts too long to show'
 
         return '<%s>' % representation
 
@@ -809,9 +815,14 @@ class ConstraintsUnion(AbstractConstraintSet):
             else:
                 return
 
-        raise error.ValueConstraintError(
-            'all of %s failed for "%s"' % (self._values, value)
-        )
+        try:
+            failure = 'all of %s failed for "%s"' % (self._values, value)
+
+        except ValueError:
+            # an integer too long to be shown in decimal digits
+            failure = 'all of %d constraints failed' % len(self._values)
+
+        raise error.ValueConstraintError(failure)
 
 # TODO:
 # refactor InnerTypeConstraint
